@@ -160,6 +160,9 @@ def read_stream(run, drv, n_cases, malformed=False, cases=None):
             run.sample({"stream": stream, "case": case, "model": answers[2 * j][:300]})
 
 
+MASK2_WRITE_HOWS = ("setitem", "set_at_", "update_at_")
+
+
 def write_stream(run, drv, n_cases):
     """correspondence for `lazy[index] = value` (members after the write) + dense oracle"""
     rng = run.rng
@@ -177,6 +180,8 @@ def write_stream(run, drv, n_cases):
         ix = G.gen_index_spec(rng, full, malformed=rng.random() < 0.08)
         if sd >= 1 and rng.random() < 0.12:
             ix = G.gen_index_mask_before(rng, bs, n, sd)      # num_squash != 0
+        elif rng.random() < 0.12:
+            ix = G.gen_index_mask2(rng, bs, n, sd) or ix      # rank-2 mask on / spanning the stack dim
         if G.has_dup_targets(ix):
             # duplicate targets: torch leaves the winner unspecified
             negs = True
@@ -253,7 +258,12 @@ def write_stream(run, drv, n_cases):
             if it[0] == "tens":
                 d0 = full[0] if False else None
         w_mask_rank = max([len(it[1]) for it in ix if it[0] == "mask"] or [0])
-        modelled = not (m_split[0] == "ok" and m_split[5][1] == "true" and w_mask_rank >= 2)
+        # a rank-2 mask on / spanning the stack dim: Model/C08SetMask2.lean lazySetCoreM (`lazy[ix] = td`, key by key
+        # `set_at_`, and the key-by-key fallback of `update_at_`)
+        span2 = m_split[0] == "ok" and m_split[5][1] == "true" and w_mask_rank >= 2
+        modelled = not span2 or (w_mask_rank == 2 and how in MASK2_WRITE_HOWS)
+        if span2:
+            run.count("write.mask2", how + ":" + impl[0] + "/" + m_set[0])
         # duplicate targets after normalisation: order-dependent, outside the model's claim
         for it in ix:
             if it[0] == "tens":
